@@ -11,6 +11,7 @@ mod race;
 mod sc_proj;
 mod sc_zoc;
 mod sc_extra;
+mod refcmp;
 
 use std::io::BufRead;
 use util::*;
